@@ -1289,11 +1289,23 @@ class BuiltinsMixin:
 
     def m_dict_get(self, d, key, default=None):
         key = self.resolve(key)
+        if isinstance(d, SMap):
+            k = self.to_z3(key)
+            if self.spec:
+                raise Unsupported("dict.get on a symbolic map inside a spec")
+            if self.run.branch(z3.Select(d.dom, k)):
+                return d.vwrap(z3.Select(d.arr, k))
+            return default
         if isinstance(key, (SStr, SInt)):
             raise Unsupported("dict.get with symbolic key")
         return d.items.get(key, default)
 
+    def _no_smap(self, d, what):
+        if isinstance(d, SMap):
+            raise Unsupported(f"dict.{what} on a symbolic map")
+
     def m_dict_pop(self, d, key, *default):
+        self._no_smap(d, "pop")
         if getattr(d, "owner", None) is not None:
             self.note_write(d.owner, key)
         if key in d.items:
@@ -1303,18 +1315,23 @@ class BuiltinsMixin:
         raise RaiseSig(SExc(exc_class("KeyError")), self.lineno)
 
     def m_dict_setdefault(self, d, key, default=None):
+        self._no_smap(d, "setdefault")
         return d.items.setdefault(key, default)
 
     def m_dict_items(self, d):
+        self._no_smap(d, "items")
         return SList([(k, v) for k, v in d.items.items()])
 
     def m_dict_keys(self, d):
+        self._no_smap(d, "keys")
         return SList(list(d.items.keys()))
 
     def m_dict_values(self, d):
+        self._no_smap(d, "values")
         return SList(list(d.items.values()))
 
     def m_dict_update(self, d, other=None, **kw):
+        self._no_smap(d, "update")
         if other is not None:
             o = self.resolve(other)
             if isinstance(o, SDict):
@@ -1326,6 +1343,7 @@ class BuiltinsMixin:
         d.items.update(kw)
 
     def m_dict_copy(self, d):
+        self._no_smap(d, "copy")
         return SDict(d.items)
 
     def m_dict_clear(self, d):
